@@ -723,16 +723,20 @@ fn version_minor_digit(v: http::Version) -> u32 {
 
 fn serialize_request(request: &RequestHeaders) -> io::Result<(Bytes, BodyLength)> {
     let mut serialized = BytesMut::new();
+    let target = match request.uri.path_and_query() {
+        Some(x) => x.as_str(),
+        // an OPTIONS request for the server as a whole (RFC 9112 3.2.4)
+        None if request.method == http::Method::OPTIONS => "*",
+        None => request.uri.path(),
+    };
     serialized.put(
         format!(
-            "{} {} HTTP/{}.{}\r\n",
+            "{} {}{} HTTP/{}.{}\r\n",
             request.method.as_str(),
-            match request.uri.path_and_query() {
-                Some(x) => x.as_str(),
-                // an OPTIONS request for the server as a whole (RFC 9112 3.2.4)
-                None if request.method == http::Method::OPTIONS => "*",
-                None => request.uri.path(),
-            },
+            // an empty path is "/" on the wire (RFC 9112 3.2.1): `as_str` supplies it only
+            // when there is no query behind it
+            if target.starts_with('?') { "/" } else { "" },
+            target,
             version_major_digit(request.version),
             version_minor_digit(request.version),
         )
